@@ -31,12 +31,13 @@ import shutil
 import time
 
 from .. import core, build, hrun, sandbox
+from .. import shim as _shim
 from .. import gen_c07 as gen
 from ..refmodel import netstring as nsm
 
 PROP = "C07"
-QQREC = os.path.join(core.VERIF, "bin", "qq-rec")
-SHIM = os.path.join(core.VERIF, "bin", "nqshim.so")
+QQREC = _shim.tool("qq-rec")
+SHIM = _shim.tool("nqshim.so")
 BIN = {"smtpd": "qmail-smtpd", "qmtpd": "qmail-qmtpd", "qmqpd": "qmail-qmqpd"}
 PROTO = {"smtpd": b"SMTP", "qmtpd": b"QMTP", "qmqpd": b"QMQP"}
 
